@@ -238,3 +238,132 @@ Section DensityOk.
     apply Hgen. intros nd Hnd. unfold WFDefs.names. apply in_map. exact Hnd.
   Qed.
 End DensityOk.
+
+(* ---- weighted degrees and the weighted handshake (C09), for uniformly real weights ---- *)
+Section WeightedDegree.
+  Context {T A : Type}.
+  Variable teqb : T -> T -> bool.
+  Variable tltb : T -> T -> bool.
+  Hypothesis teqb_spec : forall x y, teqb x y = true <-> x = y.
+  Hypothesis tltb_asym : forall x y, tltb x y = true -> tltb y x = false.
+  Hypothesis tltb_total : forall x y, tltb x y = false -> tltb y x = false -> x = y.
+  Notation edge := (edge T A).
+  Notation gstate := (gstate T A).
+  Notation WF := (@WF T A teqb tltb).
+  Open Scope Z_scope.
+
+  Definition zw (e : edge) : Z := match ew e with Some z => z | None => 0 end.
+  Definition zsum (l : list edge) : Z := fold_right (fun e acc => zw e + acc) 0 l.
+  Definition all_real (l : list edge) : Prop := forall e, In e l -> exists z, ew e = Some z.
+
+  Lemma wsum_real (l : list edge) : all_real l -> wsum (map ew l) = Some (zsum l).
+  Proof.
+    induction l as [|e t IH]; intros H; simpl; [reflexivity|].
+    destruct (H e (or_introl eq_refl)) as (z & Hz). rewrite IH by (intros e0 H0; apply H; right; exact H0).
+    unfold zw. rewrite Hz. reflexivity.
+  Qed.
+
+  Lemma zsum_app (a b : list edge) : zsum (a ++ b) = zsum a + zsum b.
+  Proof. induction a as [|h t IH]; simpl; [reflexivity|]. rewrite IH. lia. Qed.
+
+  Lemma zsum_perm (l l' : list edge) : Permutation l l' -> zsum l = zsum l'.
+  Proof. induction 1; simpl; lia. Qed.
+
+  Lemma zsum_filter_perm (f : edge -> bool) (l l' : list edge) :
+    Permutation l l' -> zsum (filter f l) = zsum (filter f l').
+  Proof.
+    induction 1; simpl; try reflexivity.
+    - destruct (f x); simpl; lia.
+    - destruct (f x); destruct (f y); simpl; lia.
+    - congruence.
+  Qed.
+
+  Lemma zsum_or_and (a b : edge -> bool) (l : list edge) :
+    zsum (filter (fun e => a e || b e) l) + zsum (filter (fun e => a e && b e) l) =
+    zsum (filter a l) + zsum (filter b l).
+  Proof. induction l as [|h t IH]; simpl; [reflexivity|]. destruct (a h); destruct (b h); simpl; lia. Qed.
+
+  Definition zsum_over {N} (g : N -> Z) (ns : list N) : Z := fold_right (fun x acc => g x + acc) 0 ns.
+
+  Lemma zsum_over_add {N} (g1 g2 : N -> Z) ns :
+    zsum_over (fun x => g1 x + g2 x) ns = zsum_over g1 ns + zsum_over g2 ns.
+  Proof. induction ns as [|h t IH]; simpl; [reflexivity|]. rewrite IH. lia. Qed.
+
+  Lemma zsum_over_ext {N} (g1 g2 : N -> Z) ns : (forall x, g1 x = g2 x) -> zsum_over g1 ns = zsum_over g2 ns.
+  Proof. intros H. induction ns as [|h t IH]; simpl; [reflexivity|]. rewrite IH, H. reflexivity. Qed.
+
+  Lemma zsum_over_indicator (v : T) (c : Z) (ns : list T) :
+    NoDup ns -> In v ns -> zsum_over (fun x => if teqb v x then c else 0) ns = c.
+  Proof.
+    induction ns as [|h t IH]; intros Hnd Hin; [destruct Hin|]. simpl.
+    inversion Hnd as [|? ? Hni Hnd']; subst. destruct Hin as [->|Hin].
+    - rewrite (proj2 (teqb_spec _ _) eq_refl).
+      assert (zsum_over (fun x => if teqb v x then c else 0) t = 0) as ->; [|lia].
+      clear IH Hnd Hnd'. induction t as [|a t IHt]; [reflexivity|]. simpl.
+      destruct (teqb v a) eqn:E.
+      + apply teqb_spec in E. subst. exfalso. apply Hni. left. reflexivity.
+      + rewrite IHt; [reflexivity|]. intros H. apply Hni. right. exact H.
+    - destruct (teqb v h) eqn:E.
+      + apply teqb_spec in E. subst. contradiction.
+      + rewrite (IH Hnd' Hin). reflexivity.
+  Qed.
+
+  (* every edge's weight is counted at exactly one name *)
+  Lemma weight_partition (f : edge -> T) (E : list edge) (ns : list T) :
+    NoDup ns -> (forall e, In e E -> In (f e) ns) ->
+    zsum_over (fun x => zsum (filter (fun e => teqb (f e) x) E)) ns = zsum E.
+  Proof.
+    intros Hnd. induction E as [|e t IH]; intros Hin; simpl.
+    - clear Hin Hnd. induction ns as [|h ns' IHn]; simpl; [reflexivity|]. rewrite IHn. reflexivity.
+    - rewrite (zsum_over_ext _ (fun x => (if teqb (f e) x then zw e else 0) + zsum (filter (fun e0 => teqb (f e0) x) t))).
+      + rewrite zsum_over_add, (zsum_over_indicator (f e) (zw e) ns Hnd (Hin e (or_introl eq_refl))).
+        rewrite IH; [reflexivity|]. intros e0 H0. apply Hin. right. exact H0.
+      + intros x. destruct (teqb (f e) x); simpl; lia.
+  Qed.
+
+  Definition w_out (g : gstate) (x : T) : Z := zsum (out_edges_of teqb g x).
+  Definition w_in (g : gstate) (x : T) : Z := zsum (in_edges_of teqb g x).
+
+  Lemma all_real_sub (l l' : list edge) : all_real l -> (forall e, In e l' -> In e l) -> all_real l'.
+  Proof. intros H Hs e He. apply H. apply Hs. exact He. Qed.
+
+  (* weighted degree = weight leaving + weight entering (a self-loop's weight twice) *)
+  Theorem get_node_weighted_degree_spec (g : gstate) x :
+    WF g -> In x (names g) -> all_real (flat_map snd (edges g)) ->
+    get_node_weighted_degree teqb tltb g x = Ok (Some (Some (w_out g x + w_in g x))).
+  Proof.
+    intros W Hx Hreal. unfold get_node_weighted_degree.
+    destruct (get_edges_for_node_spec teqb tltb teqb_spec tltb_total g x W Hx) as (l & Hl & Hp).
+    rewrite Hl. do 2 f_equal.
+    assert (Hrl : all_real l).
+    { apply (all_real_sub (flat_map snd (edges g))); [exact Hreal|].
+      intros e He. apply (Permutation_in _ Hp) in He. unfold QueryOk.touching in He. apply filter_In in He. apply He. }
+    rewrite (wsum_real l Hrl).
+    rewrite (wsum_real (filter (is_loop_at teqb x) l)) by (apply (all_real_sub l); [exact Hrl|intros e He; apply filter_In in He; apply He]).
+    simpl. f_equal.
+    rewrite (zsum_perm _ _ Hp), (zsum_filter_perm (is_loop_at teqb x) _ _ Hp).
+    unfold QueryOk.touching, w_out, w_in, QueryOk.out_edges_of, QueryOk.in_edges_of, is_loop_at.
+    rewrite (filter_filter_imp (fun e : edge => teqb (eu e) x && teqb (ev e) x)
+               (fun e => teqb (eu e) x || teqb (ev e) x)).
+    - apply (zsum_or_and (fun e : edge => teqb (eu e) x) (fun e => teqb (ev e) x)).
+    - intros e He. apply andb_true_iff in He. destruct He as (-> & _). reflexivity.
+  Qed.
+
+  Theorem weighted_handshake (g : gstate) :
+    WF g ->
+    zsum_over (fun x => w_out g x + w_in g x) (names g) = 2 * zsum (flat_map snd (edges g)).
+  Proof.
+    intros W. rewrite zsum_over_add. unfold w_out, w_in, QueryOk.out_edges_of, QueryOk.in_edges_of.
+    rewrite (weight_partition (fun e : edge => eu e)), (weight_partition (fun e : edge => ev e)).
+    - lia.
+    - apply (wf_nodup _ _ _ W).
+    - intros e He. apply (endpoints_in_names teqb tltb teqb_spec g e W He).
+    - apply (wf_nodup _ _ _ W).
+    - intros e He. apply (endpoints_in_names teqb tltb teqb_spec g e W He).
+  Qed.
+
+  (* size(true) is the sum of the stored weights *)
+  Theorem size_weighted_spec (g : gstate) :
+    all_real (flat_map snd (edges g)) -> size_weighted g = Some (zsum (flat_map snd (edges g))).
+  Proof. intros H. unfold size_weighted, get_all_edges. apply wsum_real. exact H. Qed.
+End WeightedDegree.
